@@ -299,6 +299,8 @@ func checkC17(c *core.Ctx) error {
 	c.Rule("C17.R3", "the submitting function touches thread-owned accumulators, and writes variables the jobs use, only before the submission or after Wait of the same job group", 10)
 	c.Rule("C17.R4", "the error results of AddJob/AddRangeJob/Wait/Job/RangeJob are never discarded and the branch taken on a non-nil error returns a non-nil error", 60)
 	c.Rule("C17.R7", "in functions that submit jobs every counted loop outside the job bodies uses its induction variable (per-thread / per-component merge and reset loops visit every element)", 20)
+	c.Rule("C17.R9", "the mixture EM step, interpreted symbolically under different job-to-thread schedules with stale thread slots, yields the result of the sequential run (no lost or doubly counted contribution, idle slots are not merged)", 4)
+	checkEmStep(c, true)
 	c.Rule("C17.R8", "a job uses no pool handle other than its own pool argument (thread ids come from the executing worker)", 30)
 	c.Rule("C17.R5", "slices and vectors indexed by GetThreadId() are allocated with NumberOfThreads() elements of a pool", 10)
 
